@@ -31,7 +31,10 @@ package boltz
 //@   pure
 //@   ensures result == entPresent(self, id)
 
+//@ spec sameStr(s Str) Str = s
+//@ modelfield rowCursorImpl.currentRow symRow sameStr
 //@ func (*rowCursorImpl).NextRow
+//@   props C02
 //@   modifies rs.currentRow, symRow[rs]
 //@   ensures symRow[rs] == str(id)
 //@   ensures rs.currentRow == id
@@ -154,22 +157,27 @@ package boltz
 //@ spec f2dInstant(ft Int, v Str) Int
 
 //@ func FieldToString
+//@   trusted determinism only: the result is a function of (fieldType, value); the decoding itself is specified under C13
 //@   pure
 //@   ensures (result == nil) == f2sNull(fieldType, str(value), value == nil)
 //@   ensures result != nil ==> *result == f2sVal(fieldType, str(value))
 //@ func FieldToInt64
+//@   trusted determinism only: the result is a function of (fieldType, value); the decoding itself is specified under C13
 //@   pure
 //@   ensures (result == nil) == f2iNull(fieldType, str(value), value == nil)
 //@   ensures result != nil ==> *result == f2iVal(fieldType, str(value))
 //@ func FieldToFloat64
+//@   trusted determinism only: the result is a function of (fieldType, value); the decoding itself is specified under C13
 //@   pure
 //@   ensures (result == nil) == f2fNull(fieldType, str(value), value == nil)
 //@   ensures result != nil ==> *result == f2fVal(fieldType, str(value))
 //@ func FieldToBool
+//@   trusted determinism only: the result is a function of (fieldType, value); the decoding itself is specified under C13
 //@   pure
 //@   ensures (result == nil) == f2bNull(fieldType, str(value), value == nil)
 //@   ensures result != nil ==> *result == f2bVal(fieldType, str(value))
 //@ func FieldToDatetime
+//@   trusted determinism only: the result is a function of (fieldType, value); the decoding itself is specified under C13
 //@   pure
 //@   ensures (result == nil) == f2dNull(fieldType, str(value), value == nil)
 //@   ensures result != nil ==> timeInstant(*result) == f2dInstant(fieldType, str(value))
@@ -199,3 +207,42 @@ package boltz
 //@   requires c.symbol != nil && row1 != nil && row2 != nil
 //@   pure
 //@   ensures[order] result == ite(c.forward, 1, -1) * cmp3(f2dNull(symFT(c.symbol, symRow[row1]), symBytes(c.symbol, symRow[row1]), symBytesNil(c.symbol, symRow[row1])), f2dNull(symFT(c.symbol, symRow[row2]), symBytes(c.symbol, symRow[row2]), symBytesNil(c.symbol, symRow[row2])), f2dInstant(symFT(c.symbol, symRow[row1]), symBytes(c.symbol, symRow[row1])) < f2dInstant(symFT(c.symbol, symRow[row2]), symBytes(c.symbol, symRow[row2])), f2dInstant(symFT(c.symbol, symRow[row1]), symBytes(c.symbol, symRow[row1])) > f2dInstant(symFT(c.symbol, symRow[row2]), symBytes(c.symbol, symRow[row2])))
+
+// ---------------------------------------------------------------------------
+// Transaction context (C07, C08)
+// ---------------------------------------------------------------------------
+
+//@ ghost ctxTx : (Array Int Int)
+//@ func (MutateContext).Tx
+//@   pure
+//@   ensures result == ctxTx[self]
+//@ func (MutateContext).setTx
+//@   modifies ctxTx[self]
+//@   ensures ctxTx[self] == tx
+//@ func (MutateContext).runPreCommitActions
+//@   modifies *
+//@ func (MutateContext).IsSystemContext
+//@   pure
+//@ func NewMutateContext
+//@   pure
+//@   ensures result != nil
+
+// ---------------------------------------------------------------------------
+// TypedBucket primitives used by the link-count and list-entry operations (C05, C07)
+// ---------------------------------------------------------------------------
+
+//@ spec prepend(ft Int, v Str) Str
+//@ func PrependFieldType
+//@   trusted byte-level encoding (one tag byte followed by the value) is specified under C13
+//@   pure
+//@   ensures result != nil && str(result) == prepend(fieldType, str(value))
+//@ func (*TypedBucket).IsKeyPresent
+//@   trusted reads through a bbolt cursor seek
+//@   pure
+//@   ensures result == bktHas[bucket.Bucket][str(key)]
+//@ func (*TypedBucket).GetInt32
+//@   pure
+//@ func (*TypedBucket).SetInt32
+//@   modifies bucket.Err, bktHas[bucket.Bucket], bktVal[bucket.Bucket]
+//@   ensures result == bucket
+//@   ensures old(bucket.Err) != nil ==> bucket.Err == old(bucket.Err)
